@@ -22,10 +22,35 @@ def rand_token(rng, n=None, alphabet='abcdefghijklmnopqrstuvwxyzABCXYZ0123456789
     n = n or rng.range(1, 8)
     return ''.join(rng.choice(alphabet) for _ in range(n))
 
+_VOCAB = None
+def vocab_headers():
+    """header names the server's own source mentions (string literals shaped like a header name): a request that carries a header
+    the server itself emits, reads or advertises (client hints, CORS, caching, framing) takes branches no invented name takes"""
+    global _VOCAB
+    if _VOCAB is None:
+        import os, re
+        from vlib import common as C
+        names = set()
+        for root, _, files in os.walk(C.RWS_SRC):
+            for f in files:
+                if not f.endswith('.rs') or f in ('tests.rs', 'example.rs'): continue
+                try: text = open(os.path.join(root, f), encoding='utf-8', errors='ignore').read()
+                except OSError: continue
+                names.update(re.findall(r'"([A-Z][A-Za-z0-9]*(?:-[A-Za-z0-9]+)+)"', text))
+        names |= {'Host', 'Origin', 'Range', 'Vary', 'Date', 'Cookie', 'Downlink', 'ECT', 'RTT', 'Save-Data', 'Device-Memory', 'DPR', 'Width', 'Viewport-Width',
+                  'Sec-CH-UA', 'Sec-CH-UA-Mobile', 'Sec-CH-UA-Platform', 'If-Range', 'If-None-Match', 'If-Modified-Since', 'Connection', 'Upgrade', 'Expect', 'TE', 'Transfer-Encoding'}
+        _VOCAB = sorted(n for n in names if len(n) < 60)
+    return _VOCAB
+
 def rand_headers(rng, maxn=6):
     hs = []
     for _ in range(rng.range(0, maxn)):
-        k = rng.below(8)
+        k = rng.below(10)
+        if k >= 8:
+            n = rng.choice(vocab_headers())
+            if rng.chance(1, 4): n = rng.choice([n.lower(), n.upper()])
+            hs.append((n, rng.choice(['?1', '"x86"', '1', 'x', '', 'bytes', 'no-store', '*', 'http://a', 'on', '8'])))
+            continue
         if k == 0: hs.append(('Host', rng.choice(['localhost', 'a:80', 'x', ''])))
         elif k == 1: hs.append(('Origin', rng.choice(['http://a', 'https://foo.example', '', 'null', 'http://a\rX-Evil: 1', 'x\ny: z', 'a\x00b', 'http://a: b'])))
         elif k == 2: hs.append(('Range', rng.choice(['bytes=0-', 'bytes=1-2', 'bytes=-3', 'bytes=5-1', 'bytes=a-b', 'bytes=0-0,2-3', 'bytes=-999999999999999999999', 'bytes=18446744073709551615-', 'bits=1-2', 'bytes=', 'bytes=1-2\r\nX: y'])))
